@@ -156,7 +156,10 @@ func genService(r *rand.Rand, tbl []mDef, idx int) []mDef {
 				}
 			}
 			// interface sets may differ between services
-			if len(c.Ifaces) > 1 && r.Intn(3) == 0 {
+			if len(c.Ifaces) > 0 && r.Intn(7) == 0 {
+				// a service may declare the type without any implements clause
+				c.Ifaces = nil
+			} else if len(c.Ifaces) > 1 && r.Intn(3) == 0 {
 				c.Ifaces = c.Ifaces[:1]
 			} else if len(c.Ifaces) > 1 && r.Intn(2) == 0 {
 				// the same interfaces written in another order
